@@ -20,7 +20,6 @@ import (
 	"net"
 	"strings"
 
-	ber "github.com/go-asn1-ber/asn1-ber"
 	"github.com/honeytrap/honeytrap/event"
 	"github.com/honeytrap/honeytrap/pushers"
 	"github.com/honeytrap/honeytrap/services"
@@ -217,7 +216,7 @@ func (s *ldapService) Handle(ctx context.Context, conn net.Conn) error {
 
 	for {
 
-		p, err := ber.ReadPacket(s.ConnReader)
+		p, err := readPacket(s.ConnReader)
 		if err != nil {
 			return err
 		}
